@@ -22,12 +22,7 @@ static void check_members(djinterop::database& db, members_model& m, std::vector
 {
     for (size_t c = 0; c < hc.size(); ++c)
     {
-        if (!m.crate_alive[c])
-        {
-            if (verif_param("gen") == 1) CK(!hc[c].is_valid(), "C08: schema 1.x: the id of a removed crate was given to a new crate (handle of a removed crate reports is_valid())");
-            else CK(!hc[c].is_valid(), "C08: handle of a removed crate reports is_valid()");
-            continue;
-        }
+        if (!m.crate_alive[c]) continue;       // (stale handles are judged last, see below)
         auto ts = hc[c].tracks();
         CK(ts.size() == m.in[c].size(), "C08: crate.tracks() is not exactly the tracks added and not removed (count)");
         for (size_t i = 0; i < m.in[c].size(); ++i)
@@ -42,12 +37,7 @@ static void check_members(djinterop::database& db, members_model& m, std::vector
     }
     for (size_t t = 0; t < ht.size(); ++t)
     {
-        if (!m.track_alive[t])
-        {
-            if (verif_param("gen") == 1) CK(!ht[t].is_valid(), "C08: schema 1.x: the id of a removed track was given to a new track (handle of a removed track reports is_valid())");
-            else CK(!ht[t].is_valid(), "C08: handle of a removed track reports is_valid()");
-            continue;
-        }
+        if (!m.track_alive[t]) continue;
         CK(ht[t].is_valid(), "C08: live track reports !is_valid()");
         std::vector<djinterop::crate> cc; bool supported = true;
         try { cc = ht[t].containing_crates(); } catch (const std::runtime_error&) { supported = false; }
@@ -62,6 +52,20 @@ static void check_members(djinterop::database& db, members_model& m, std::vector
             want += has;
         }
         CK(cc.size() == want, "C08: track.containing_crates() lists a crate that is not live or does not contain the track");
+    }
+    // stale handles last: where a generation hands the id of a removed crate / track out again (a listed known finding of schema 1.x) the path ends here,
+    // AFTER the membership of the crate that inherited the id has been compared (a removal that leaves rows behind shows exactly there: seeded change C08-3)
+    for (size_t c = 0; c < hc.size(); ++c)
+    {
+        if (m.crate_alive[c]) continue;
+        if (verif_param("gen") == 1) CK(!hc[c].is_valid(), "C08: schema 1.x: the id of a removed crate was given to a new crate (handle of a removed crate reports is_valid())");
+        else CK(!hc[c].is_valid(), "C08: handle of a removed crate reports is_valid()");
+    }
+    for (size_t t = 0; t < ht.size(); ++t)
+    {
+        if (m.track_alive[t]) continue;
+        if (verif_param("gen") == 1) CK(!ht[t].is_valid(), "C08: schema 1.x: the id of a removed track was given to a new track (handle of a removed track reports is_valid())");
+        else CK(!ht[t].is_valid(), "C08: handle of a removed track reports is_valid()");
     }
 }
 struct mop_t { int kind; int a; int b; };
